@@ -149,6 +149,14 @@ class Verifier(ExprMixin, CallMixin, Engine):
                 return self.reify(v, p).t
         return self.term_of(v)
 
+    def reify_cached(self, o, p):
+        """One symbolic identity per (object, field values) on a path: immutable objects only."""
+        cache = p.ghost.setdefault("__reified__", {})
+        key = (o.oid, tuple(sorted((k, repr(v)) for k, v in o.fields.items())))
+        if key not in cache:
+            cache[key] = self.reify(o, p)
+        return cache[key]
+
     def reify(self, o, p):
         """Give a concrete immutable object a symbolic identity (sort Obj) with its fields as facts."""
         ref = fresh(Obj, o.cls.name.lower())
@@ -524,7 +532,9 @@ class Verifier(ExprMixin, CallMixin, Engine):
                 q = p.fork(); q.script = []; q.pos = 0
                 q.pc.append(c)
                 if is_for:
-                    self.store(st.target, elem(z3.IntVal(0)), q, module)
+                    ev_ = elem(z3.IntVal(0))
+                    self.store(st.target, ev_, q, module)
+                    self.elem_range(ev_, q)
                 for s2, q2, v2 in self.exec_block(st.body, q, module):
                     if s2 == "break":
                         out.append(("normal", q2, None))
@@ -603,7 +613,9 @@ class Verifier(ExprMixin, CallMixin, Engine):
                 for gname, expr in spec.get("snapshot_each", {}).items():
                     b.ghost[gname] = copy.deepcopy(self.ev(parse_expr(expr), self.spec_path(b, b.env, old=b.old), module))
                 if is_for:
-                    self.store(st.target, elem(b.ghost[ivar].t), b, module)
+                    ev_ = elem(b.ghost[ivar].t)
+                    self.store(st.target, ev_, b, module)
+                    self.elem_range(ev_, b)
                 for s2, q2, v2 in self.exec_block(st.body, b, module):
                     if s2 in ("normal", "continue"):
                         if is_for:
@@ -639,6 +651,14 @@ class Verifier(ExprMixin, CallMixin, Engine):
                 out.append(("normal", x, None))
         return out
 
+    def elem_range(self, v, p):
+        """Elements drawn from an octet string are octets."""
+        if isinstance(v, VInt) and z3.is_app_of(v.t, z3.Z3_OP_SEQ_NTH):
+            p.pc.append(z3.And(v.t >= 0, v.t <= 255))
+        elif isinstance(v, VTuple):
+            for x in v.items:
+                self.elem_range(x, p)
+
     def havoc_object(self, v, p, seen, name):
         if isinstance(v, VOpt):
             v = v.val
@@ -659,6 +679,13 @@ class Verifier(ExprMixin, CallMixin, Engine):
     def apply_hint(self, hint, p, module, name):
         """A hint is a boolean expression (asserted as its own obligation, then assumed), a lemma call, or any term
         (evaluated only to instantiate the unfolding axioms of the spec functions it mentions)."""
+        guard_names = []
+        if hint.startswith("using "):
+            # "using a, b: <hint>"  - the hint applies only on paths where the ghost names a, b are bound
+            head, hint = hint[6:].split(":", 1)
+            guard_names = [x.strip() for x in head.split(",")]
+            if any(g not in p.ghost and g not in p.env for g in guard_names):
+                return
         e = parse_expr(hint)
         q = self.spec_path(p, p.env, old=p.old)
         if isinstance(e, ast.Call) and isinstance(e.func, ast.Name) and e.func.id.startswith("lemma_"):
